@@ -56,6 +56,7 @@ var (
 	junk    = flag.Int("junk", 0, "add an interleaving case on rocksdb with this many extra files in the data directory (K1R demonstration)")
 	exh     = flag.Bool("exh", false, "add the exhaustive small-scope purge/latest cases")
 	nInter  = flag.Int("ninter", 40, "trials of the apply-loop interleaving per engine (case kind I)")
+	nCrash  = flag.Int("ncrash", 1, "timed kills per engine and kind (CB/CR/CF); 0 = no crash cases at all")
 	nFetch  = flag.Int("nfetch", 1, "fetch-after-lineage-reset scenarios per engine")
 	engines = flag.String("engines", "pebble,rocksdb,mem", "engines for the traces")
 	k1engs  = flag.String("k1", "pebble", "engines for the K1 probe (comma separated, empty = none)")
@@ -344,6 +345,24 @@ func generate(r *hx.Rng) []cs {
 			cases = append(cases, cs{id: next(), kind: "I", f: []string{e, fmt.Sprint(*nInter), fmt.Sprint(r.Int63n(1 << 40))}})
 		}
 	}
+	for _, e := range strings.Split(*engines, ",") {
+		if e == "" || *nCrash == 0 {
+			continue
+		}
+		sd := func() string { return fmt.Sprint(r.Int63n(1 << 30)) }
+		for _, pt := range []string{"ck.save.before", "ck.save.after", "ck.purge.before", "ck.purge.after"} {
+			cases = append(cases, cs{id: next(), kind: "CB", f: []string{e, pt, "64", sd()}})
+		}
+		for _, pt := range []string{"rs.remove.after", "rs.copy.after"} {
+			cases = append(cases, cs{id: next(), kind: "CR", f: []string{e, pt, "64", sd()}})
+		}
+		// kills at arbitrary moments of the copy / the file replacement / the transfer
+		for k := 0; k < *nCrash; k++ {
+			cases = append(cases, cs{id: next(), kind: "CB", f: []string{e, fmt.Sprintf("t%d", r.Pick(30000)), "16000", sd()}})
+			cases = append(cases, cs{id: next(), kind: "CR", f: []string{e, fmt.Sprintf("t%d", r.Pick(8000)), "2000", sd()}})
+			cases = append(cases, cs{id: next(), kind: "CF", f: []string{e, fmt.Sprintf("t%d", r.Pick(8000)), "16000", sd()}})
+		}
+	}
 	if *junk > 0 {
 		cases = append(cases, cs{id: next(), kind: "I", f: []string{"rocksdb", "2", fmt.Sprint(r.Int63n(1 << 40)), fmt.Sprint(*junk)}})
 	}
@@ -398,6 +417,15 @@ func parseReplay(file string) []cs {
 }
 
 func main() {
+	if len(os.Args) > 2 && os.Args[1] == "-child" {
+		smx.Quiet()
+		log.SetOutput(ioutil.Discard)
+		if dn, err := os.OpenFile(os.DevNull, os.O_WRONLY, 0); err == nil {
+			os.Stdout = dn
+		}
+		childMain(os.Args[2], os.Args[3:])
+		return
+	}
 	flag.Parse()
 	if *doC {
 		consts()
@@ -408,6 +436,31 @@ func main() {
 		log.Fatalf("unknown mem type %q", *memType)
 	}
 	if *probe != "" {
+		if strings.HasPrefix(*probe, "cb:") { // cb:<eng>:<point>:<fillKB>
+			f := strings.Split(*probe, ":")
+			kb, _ := strconv.Atoi(f[3])
+			for k := 0; k < *nInter; k++ {
+				fmt.Fprintln(os.Stderr, crashBackup(f[1], f[2], kb, int64(k)))
+			}
+			return
+		}
+		if strings.HasPrefix(*probe, "cr:") {
+			f := strings.Split(*probe, ":")
+			kb, _ := strconv.Atoi(f[3])
+			for k := 0; k < *nInter; k++ {
+				fmt.Fprintln(os.Stderr, crashRestore(f[1], f[2], kb, int64(k)))
+			}
+			return
+		}
+		if strings.HasPrefix(*probe, "cf:") { // cf:<eng>:<delay us>:<fillKB>
+			f := strings.Split(*probe, ":")
+			us, _ := strconv.Atoi(f[2])
+			kb, _ := strconv.Atoi(f[3])
+			for k := 0; k < *nInter; k++ {
+				fmt.Fprintln(os.Stderr, crashFetch(f[1], us, kb, int64(k)))
+			}
+			return
+		}
 		if strings.HasPrefix(*probe, "fetch:") {
 			probeFetch(strings.TrimPrefix(*probe, "fetch:"))
 			return
@@ -482,6 +535,23 @@ func main() {
 			if coll != "" {
 				fmt.Fprintf(os.Stderr, "E %s r1=%d r2=%d sst number reused with other content:%s\n", c.f[0], r1, r2, coll)
 			}
+		case "CB", "CR", "CF":
+			// crash cases: <eng> <point | t<micros>> <fillKB> <seed>
+			kb, _ := strconv.Atoi(c.f[2])
+			sd, _ := strconv.ParseInt(c.f[3], 10, 64)
+			var out string
+			switch c.kind {
+			case "CB":
+				out = crashBackup(c.f[0], c.f[1], kb, sd)
+			case "CR":
+				out = crashRestore(c.f[0], c.f[1], kb, sd)
+			default:
+				us, _ := strconv.Atoi(strings.TrimPrefix(c.f[1], "t"))
+				out = crashFetch(c.f[0], us, kb, sd)
+			}
+			co.Printf("%s\t%s\t%s\t%s\t%s\t%s\n", c.id, c.kind, c.f[0], c.f[1], c.f[2], c.f[3])
+			io.Printf("%s\t%s\n", c.id, canonCrash(c.kind, c.f[0], c.f[1], out))
+			fmt.Fprintf(os.Stderr, "%s %s %s: %s\n", c.kind, c.f[0], c.f[1], out)
 		case "I":
 			n, _ := strconv.Atoi(c.f[1])
 			sd, _ := strconv.ParseInt(c.f[2], 10, 64)
